@@ -42,14 +42,29 @@ type c06ClientRec struct {
 func TestC06(t *testing.T) {
 	rec := ev.Get("C06")
 	rec.Rule("state machine over a Conn with an accepted first hello. Operations: client sends (well-formed retried hello sealed at the next sequence number - its extensions, including those referenced through ech_outer_extensions, may differ from the first flight's -, 11 ill-formed variants, plain hello, CCS, other handshake, application data, alert), backend queues (HRR, ServerHello, CCS, application data, other handshake) and flushes its pending bytes in drawn pieces, backend reads one record. Reference machine from the property: a ClientHello consumed while exactly one HRR has been completely written, no retry was processed and no client application data was seen is a retry (expected reconstructed inner, or the class of its defect, alert+close); every other record is forwarded unchanged. distinct = operation-kind sequence; non-trivial = history contains an HRR and a later ClientHello")
-	rec.Mandatory("hrr_after_backend_appdata", "double_hrr", "ccs_between_hrr_and_hello", "hello_without_hrr", "hello_after_appdata", "hrr_split_across_writes", "retry_ok", "retry_ok_referenced_ext_changed", "third_hello_forwarded",
+	rec.Mandatory("hrr_after_backend_appdata", "double_hrr", "ccs_between_hrr_and_hello", "hello_without_hrr", "hello_after_appdata", "hrr_split_across_writes", "retry_ok", "retry_ok_referenced_ext_changed", "sibling_key_same_id", "third_hello_forwarded",
 		"retry:ch_no_ech", "retry:ch_other_id", "retry:ch_other_suite", "retry:ch_enc_nonempty", "retry:ch_fresh_ctx", "retry:ch_seq_skip", "retry:ch_sni_changed", "retry:ch_alpn_changed", "retry:ch_no_inner_ext", "retry:ch_outer_sni_changed")
 	rapid.Check(t, func(t *rapid.T) {
 		sc := drawSealed(t, false)
 		key := sc.Key
 		tp := sc.Tuple
 		tr := wire.New(sc.Record, nil)
-		c, err := newConn(context.Background(), tr, echKeys(key))
+		// the server may hold other keys under the same one-byte config id (another key pair,
+		// another public name), before or after the one in use: the retry belongs to the key
+		// that opened the first hello
+		serverKeys := []*hello.Key{key}
+		var cl []string
+		if rapid.IntRange(0, 2).Draw(t, "sibling_keys") == 0 {
+			sib := drawKey(t, "sibling", int(key.ID), "sibling."+key.PublicName[:min(len(key.PublicName), 200)])
+			sib, _ = hello.NewKey(sib.Priv.Bytes(), key.ID, "sibling."+key.PublicName[:min(len(key.PublicName), 200)], key.Suites)
+			if rapid.Bool().Draw(t, "sibling_first") {
+				serverKeys = []*hello.Key{sib, key}
+			} else {
+				serverKeys = []*hello.Key{key, sib}
+			}
+			cl = append(cl, "sibling_key_same_id")
+		}
+		c, err := newConn(context.Background(), tr, echKeys(serverKeys...))
 		if err != nil || !c.ECHAccepted() {
 			ev.Violation(t, "C06", sc.replay(), "first hello not accepted: %v", err)
 		}
@@ -64,7 +79,6 @@ func TestC06(t *testing.T) {
 		retryDone, clientAppData := false, false
 		recipientSeq := 1
 		var ops []string
-		var cl []string
 		sawHRR, sawCHAfterHRR, hrrSplit := false, false, false
 		ccsSinceHRR := false
 		var alertWant []byte
@@ -223,7 +237,7 @@ func TestC06(t *testing.T) {
 			asRetry := isCH && hrrSeen && !retryDone && !clientAppData
 			var got []byte
 			e := guard(func() error { var e error; got, e = readOneRecord(c); return e })
-			rp := map[string]any{"keys": keysReplay([]*hello.Key{key}), "first_record": hx(sc.Record), "ops": ops, "record": hx(cr.bytes), "kind": cr.kind}
+			rp := map[string]any{"keys": keysReplay(serverKeys), "first_record": hx(sc.Record), "ops": ops, "record": hx(cr.bytes), "kind": cr.kind}
 			if isPanic(e) {
 				ev.Violation(t, "C06", rp, "panic: %v", e)
 			}
